@@ -166,6 +166,18 @@ class Harness(object):
         self.inputs[name] = v.tolist()
         return v
 
+    def int_vec(self, name, n):
+        """integer-dtype data (numpy int64 array): Int-sorted symbols; the array reports dtype int64 to the code"""
+        if self.mode == 'sym':
+            a = SymArray.make([Sym.real_var("%s%d" % (name, i), kind='input', integer=True) for i in range(n)])
+            a._ikind = True
+            return a
+        v = np.array([int(round(self._val("%s%d" % (name, i), float(3 * ((self._default_i + i) % 5) - 5 + i)))) for i in range(n)],
+                     dtype=np.int64)
+        self._default_i += n
+        self.inputs[name] = [int(t) for t in v]
+        return v
+
     def complex_vec(self, name, n):
         if self.mode == 'sym':
             return SymArray.make([Sym.complex_var("%s%d" % (name, i), kind='input') for i in range(n)], cplx=True)
